@@ -58,7 +58,12 @@ type RPlan struct {
 	Max     int    `json:"max_in_flight"`
 	Timeout int64  `json:"timeout_ns"`
 	Base    uint32 `json:"seq_base"`
-	Ops     []ROp  `json:"ops"`
+	// WideB != 0: "two far-apart sequence numbers" mode (C10 only). Offset 0 is
+	// Base and offset 1 is WideB; they differ by more than 2^24-1 and Base is
+	// the older one by the documented rule (numbers that far apart are
+	// ordered as a roll-over: the larger one is the older).
+	WideB uint32 `json:"wide_b,omitempty"`
+	Ops   []ROp  `json:"ops"`
 	// Fired counts, per stream-fault kind, how often the generator applied it
 	// while producing Ops (evidence only; stale after shrinking).
 	Fired []int `json:"fired,omitempty" shrink:"-"`
@@ -71,6 +76,18 @@ func (p *RPlan) Valid() bool {
 	for _, o := range p.Ops {
 		if o.Off > spanMax || o.K < 0 || o.K > opPushBad || o.D < 0 {
 			return false
+		}
+		if p.WideB != 0 && o.Off > 1 {
+			return false
+		}
+	}
+	if p.WideB != 0 {
+		d := int64(p.Base) - int64(p.WideB)
+		if d < 0 {
+			d = -d
+		}
+		if d <= spanMax || p.Base < p.WideB {
+			return false // Base must be the larger (= older) of two numbers more than 2^24-1 apart
 		}
 	}
 	return true
@@ -131,7 +148,28 @@ func GenRPlan(r *core.Rng, tilt int) *RPlan {
 	default:
 		p.Base = r.U32()
 	}
-	if r.Chance(1, 6) {
+	if tilt == 10 && r.Chance(1, 25) {
+		// two sequence numbers more than 2^24-1 apart: by the documented rule
+		// the larger one is the older. Everything else about the history is
+		// ordinary; only these two numbers occur.
+		lo := r.U32() >> 1
+		diff := uint32(r.Range(1<<24, 1<<31-1))
+		if r.Chance(1, 3) {
+			diff = uint32(core.Pick(r, 1<<24, 1<<24+1, 1<<25, 1<<30, 1<<31-1))
+		}
+		if uint64(lo)+uint64(diff) > 1<<32-1 {
+			lo = 5
+		}
+		p.Base, p.WideB = lo+diff, lo
+		if p.WideB == 0 {
+			p.WideB, p.Base = 1, 1+diff
+		}
+		ops := genChaos(r, p, fired)
+		for i := range ops {
+			ops[i].Off &= 1
+		}
+		p.Ops = ops
+	} else if r.Chance(1, 6) {
 		p.Ops = genChaos(r, p, fired)
 	} else {
 		p.Ops = genStream(r, p, tilt, fired)
